@@ -110,18 +110,26 @@ pub fn run(stim: &Value, rec: &Rec) {
         let mut clients: HashMap<u64, SvcClient<tonic::transport::Channel>> = HashMap::new();
         let mut tasks: HashMap<u8, tokio::task::JoinHandle<()>> = HashMap::new();
         let mut pending: Vec<(u64, Shim)> = vec![];
+        let mut held: HashMap<u64, Shim> = HashMap::new();
         let mut tx = Some(tx);
         let steps = stim["steps"].as_array().cloned().unwrap_or_default();
         for (i, st) in steps.iter().enumerate() {
             let nb = st["nb"].as_bool().unwrap_or(false);
-            log.ev(json!({"e":"step","i":i as u64,"op":st["op"],"c":st["c"].as_u64().unwrap_or(0),"k":st["k"].as_u64().unwrap_or(0),"nb":nb}));
+            log.ev(json!({"e":"step","i":i as u64,"op":st["op"],"c":st["c"].as_u64().unwrap_or(0),"k":st["k"].as_u64().unwrap_or(0),"nb":nb,"hold":st["hold"].as_bool().unwrap_or(false)}));
             match st["op"].as_str().unwrap_or("") {
                 "offer" => {
                     // the server's half goes into the incoming stream now; the client's half is connected at the next barrier
                     let c = st["c"].as_u64().unwrap();
                     let (c_io, s_io, _d) = Shim::pair(65536, rq, wq, pend);
-                    if let Some(tx) = &tx { let _ = tx.send(Ok((c, s_io))); }
+                    // hold: only the client's half exists for now (the client can connect and write: the bytes wait in the pipe);
+                    // the server's half reaches the accept loop with a later "admit" step
+                    if st["hold"].as_bool().unwrap_or(false) { held.insert(c, s_io); }
+                    else if let Some(tx) = &tx { let _ = tx.send(Ok((c, s_io))); }
                     pending.push((c, c_io));
+                }
+                "admit" => {
+                    let c = st["c"].as_u64().unwrap();
+                    if let (Some(s_io), Some(tx)) = (held.remove(&c), &tx) { let _ = tx.send(Ok((c, s_io))); }
                 }
                 "send" => {
                     connect_pending(&mut pending, &mut clients, &log).await;
